@@ -1,6 +1,8 @@
 (* C02 - run to exhaustion, every pre-terminal exactly once.  Theorems only. *)
 From Coq Require Import List Bool Sorting.Permutation Floats.
 From Pcfg Require Import ProbAlg F64 Next NextSpec NextProofs NextFacts.
+From Pcfg Require Import KernelRt KernelGenProofs.
+From PcfgGen Require Import Kernel_gen.
 
 Theorem C02_exactly_once :
   forall (A : palg) (rs : ruleset A), wf rs -> forall pop, pop_ok_okb pop ->
@@ -41,6 +43,45 @@ Qed.
 
 Theorem C02_hypotheses_satisfiable : wf demo_rs /\ total demo_rs = 44.
 Proof. exact (conj demo_wf demo_total). Qed.
+
+(* ---- second tie to the source: gen/Kernel_gen.v is the translation of the Python
+   text of _find_prob, _are_you_my_child, find_children and initalize_base_structures (harness/translate_kernel.py,
+   redone on every run); it equals the model the theorems above are about, for every
+   choice of the undefined values up / un and all parse trees with indices in range *)
+Theorem C02_source_find_prob_is_model :
+  forall (A : palg) (up : P A) (rs : ruleset A) (t : pt) (b : P A),
+  inrange rs t -> py_find_prob up rs t b = find_prob rs t b.
+Proof. exact (fun A up rs t b => kernel_find_prob_eq up rs t b). Qed.
+
+Theorem C02_source_my_child_is_model :
+  forall (A : palg) (up : P A) (un : var * nat) (rs : ruleset A) (child : pt) (base : P A) (ppos : nat) (pprob : P A),
+  inrange rs child -> py_are_you_my_child up un rs child base ppos pprob = my_child rs child base ppos pprob.
+Proof. exact (fun A up un rs child base ppos pprob => kernel_my_child_eq up un rs child base ppos pprob). Qed.
+
+Theorem C02_source_find_children_is_model :
+  forall (A : palg) (up : P A) (un : var * nat) (rs : ruleset A) (it : item A),
+  inrange rs (ipt it) -> py_find_children up un rs it = find_children rs it.
+Proof. exact (fun A up un rs it => kernel_find_children_eq up un rs it). Qed.
+
+Theorem C02_source_init_is_model :
+  forall (A : palg) (up : P A) (rs : ruleset A), wf rs ->
+  py_initalize_base_structures up rs = init_items rs.
+Proof. exact (fun A up rs H => kernel_init_eq_wf up rs H). Qed.
+
+(* the queue loop over the translated initalize_base_structures / find_children goes
+   through the model's states *)
+Theorem C02_translated_run_is_model :
+  forall (A : palg) (up : P A) (un : var * nat) (rs : ruleset A), wf rs -> forall pop n, pop_ok_okb pop ->
+  kernel_run up un pop rs n (kernel_start up rs) = run pop rs n (start rs).
+Proof. exact (fun A up un rs H pop n => kernel_run_eq up un rs H pop n). Qed.
+
+Theorem C02_exactly_once_translated :
+  forall (A : palg) (up : P A) (un : var * nat) (rs : ruleset A), wf rs -> forall pop, pop_ok_okb pop ->
+  Permutation (emitted (kernel_run up un pop rs (total rs) (kernel_start up rs))) (all_preterminals rs) /\
+  pending (kernel_run up un pop rs (total rs) (kernel_start up rs)) = nil.
+Proof. exact (fun A up un rs H pop => kernel_exactly_once up un rs H pop). Qed.
+
+Print Assumptions C02_exactly_once_translated.
 
 Print Assumptions C02_exactly_once.
 Print Assumptions C02_frontier_nodup.
